@@ -23,7 +23,7 @@ RULE = ("cases: (a) exhaustive small: every record length 1..7 carrying every si
         "rotation. A case is non-trivial when some rotation amount is not a multiple of the length and the "
         "record carries a feature or track; distinct = distinct (length, feature parts, operation list).")
 ASSUMPTIONS = [
-    "records are CircularRecords over Seq with exact positions",
+    "records are CircularRecords over Seq; positions of any Biopython kind (exact, <a, >b, (a.b), a^b, one-of) are compared through their integer value; a part that refers to another record denotes that record's nucleotides and must come through untouched; the join/order operator of a compound location is not compared",
     "a feature covering the whole circle exactly once has no distinguished start: cyclic shifts of it are equal",
     "Biopython Seq/SeqFeature/location classes are trusted",
 ]
